@@ -133,8 +133,14 @@ class MomentsToExpVar(Contract):
         self.n = n
         self.label = "UncertaintyQuantification.moments_to_expectation_variance[output length %d]" % n
 
+    def model_to_input(self, model):
+        from pyvc import modelparse as mp
+        g = lambda k: mp.tofloat(mp.num(model.get(k, "0")) or 0)  # noqa
+        return {"kind": "C15.moments", "m1": [g("m1_%d" % i) for i in range(self.n)], "m2": [g("m2_%d" % i) for i in range(self.n)]}
+
     def inputs(self, S):
-        return {"mom1": Seq("list", [S.real("m1_%d" % i) for i in range(self.n)]), "mom2": Seq("list", [S.real("m2_%d" % i) for i in range(self.n)])}
+        # the callers pass ndarray views of the operation's live result array
+        return {"mom1": Seq("array", [S.real("m1_%d" % i) for i in range(self.n)]), "mom2": Seq("array", [S.real("m2_%d" % i) for i in range(self.n)])}
 
     def post(self, S, old, env, result):
         ok = isinstance(result, Seq) and result.concrete and len(result.items) == 2 and all(isinstance(x, Seq) and x.concrete and len(x.items) == self.n for x in result.items)
@@ -147,7 +153,9 @@ class MomentsToExpVar(Contract):
         return [Cl("returns-pair-of-vectors", True, prop=True),
                 Cl("expectation-is-first-moment", z3.And(*[Vv.to_z3(ex.items[i], True) == m1[i] for i in range(self.n)]), prop=True),
                 Cl("variance-never-negative", z3.And(*[Vv.to_z3(var.items[i], True) >= 0 for i in range(self.n)]), prop=True),
-                Cl("variance-is-second-minus-squared-first-moment", z3.And(*[Vv.to_z3(var.items[i], True) == absv(m2[i] - m1[i] * m1[i]) for i in range(self.n)]), prop=True)]
+                Cl("variance-is-second-minus-squared-first-moment", z3.And(*[Vv.to_z3(var.items[i], True) == absv(m2[i] - m1[i] * m1[i]) for i in range(self.n)]), prop=True),
+                Cl("the-stored-moments-are-not-overwritten", z3.And(*([Vv.to_z3(env["mom2"].items[i], True) == m2[i] for i in range(self.n)] +
+                                                                       [Vv.to_z3(env["mom1"].items[i], True) == m1[i] for i in range(self.n)])), prop=True)]
 
 
 def _affine_lemma():
